@@ -103,6 +103,6 @@ impl Mw for Adapter {
         };
         let led = log_len() != before; // the inner service logged `inner_call`
         let fut = Traced { c, on: !led, fut: Box::pin(fut) };
-        Some(Box::pin(async move { render(fut.await) }))
+        Some(held(fut, render))
     }
 }
